@@ -19,7 +19,7 @@ CHECKS["C18"] = dict(level="exploration", technique="TLA+ Subst/Shape operators;
     text="TLC enumerates type expressions over the source names of a type_mappings table (plain, generic, and one that is also a project struct) under up to 2 contexts together with their substituted twins (TypeLang!Subst); both are generated at every site in both modes; TLC checks that T[N] under the mapping denotes what T[M] denotes, that mapped names are neither declared nor referenced, and that unmapped types are AST-identical with and without the table.",
     note="Targets limited to string/number/boolean as the property states. Trusted: TS parser, TLC.", ref="6 (C18)")
 CHECKS["C08"] = dict(level="model_checking", technique="TLA+ Pipeline phase machine (as-built knobs vs contract invariants) model-checked by TLC; TLC-enumerated edit/loss histories replayed on the real CLI and build driver under strace; traces validated by TLC (Trace_Pipeline)",
-    text="TLC checks the contract invariants (success => every expected file present and current; never vouch for stale files) on the Pipeline model for every interleaving of <=2 environment steps, 3 runs, 1 fault, both drivers, with intended and as-built knobs; the histories TLC enumerates from the as-built model (26 output-affecting edit classes, loss of each generated file, events/commands/visualisation toggles) are executed on the real binary and the real BuildSystem driver and each run is judged by the trace specification against a differential oracle.",
+    text="TLC checks the contract invariants (success => every expected file present and current; never vouch for stale files) on the Pipeline model for every interleaving of <=2 environment steps, 3 runs, 1 fault, both drivers, with intended and as-built knobs; the histories TLC enumerates from the as-built model (27 output-affecting edit classes, loss of each generated file, events/commands/visualisation toggles) are executed on the real binary and the real BuildSystem driver and each run is judged by the trace specification against a differential oracle.",
     note="Bounded histories (<=1 env step exhaustively + sample quick; <=2 thorough). Oracle = forced run of the same binary. As-built drift is reported in the evidence. Trusted: strace, TLC.", ref="6 (C08)")
 CHECKS["C14"] = dict(level="model_checking", technique="TLA+ Pipeline model (C14_NoChangeNoWrite action property, C14_ForceRegenerates) checked by TLC for every iteration order; TLC-enumerated repeat and force histories replayed on the real CLI/build driver under strace; trace validation by TLC",
     text="TLC checks on the Pipeline model that a non-forced run on an unchanged, cleanly generated project performs no mutation and that a run with --force or force:true rewrites every expected file, for both drivers, every iteration order and the four flag/config combinations; the TLC-enumerated repeat history (6 runs, 1..6 command files, fresh process each) and force histories (every cache state x flag/config combination) are executed on the real binaries under strace with bytes/mtime/inode comparison and judged by Trace_Pipeline.",
@@ -31,7 +31,7 @@ CHECKS["C16"] = dict(level="model_checking", technique="TLA+ Pipeline model (pro
     text="TLC checks the confinement action property on the Pipeline model; every history TLC enumerates (incl. runs that find no commands, a foreign .write_test, lost files, reruns) is executed with the real generate, init and build drivers in 7 directory layouts with the output directory pre-populated by foreign files whose names are close to the reserved ones; Trace_Pipeline accepts a run only if every file-mutating system call hits a reserved generated name directly inside the output directory (or creates that directory; init: the configuration file) and nothing else in the sandbox changed.",
     note="The sandbox stands for the rest of the file system. Trusted: strace completeness, TLC.", ref="6 (C16)")
 CHECKS["C13"] = dict(level="model_checking", technique="TLA+ Pipeline model (C13_OrderIndependent over every iteration order) checked by TLC with a negative-control knob setting; many fresh-process runs and semantics-preserving source transformations on the real CLI/build driver; output relations (identical / vizonly / declset) judged by TLC",
-    text="TLC shows on the Pipeline model that what a run writes is independent of the iteration order it sees (and rejects the pinned tree's knob setting); on the real binaries each project state (base, each of 26 edit classes, sampled pairs; 1..6 command files) is generated by many fresh processes on both drivers and under each semantics-preserving transformation, and Trace_Pipeline judges the relations the property demands over per-file sequences of declaration digests.",
+    text="TLC shows on the Pipeline model that what a run writes is independent of the iteration order it sees (and rejects the pinned tree's knob setting); on the real binaries each project state (base, each of 27 edit classes, sampled pairs; 1..6 command files) is generated by many fresh processes on both drivers and under each semantics-preserving transformation, and Trace_Pipeline judges the relations the property demands over per-file sequences of declaration digests.",
     note="Schedules (hash seeds) on the real binary are sampled (6 processes quick / 25 thorough per state); exhaustiveness over orders is in the model only.", ref="6 (C13)")
 CHECKS["C19"] = dict(level="exploration", technique="TLA+ ConfigDoc operators (Norm/Foreign/Preserved, RoundTrips, Effective, MustReject) as oracle; TLC enumerates document shapes and all 26 244 flag/file combinations; real save/load and real CLI runs; trace validation by TLC",
     text="TLC-enumerated JSON document shapes filled from an atom pool (escaped/Unicode strings, i64/u64 extremes, decimals) go through the real save_to_tauri_config / from_tauri_config and TLC checks that everything outside plugins.typegen is preserved atom for atom and that the settings read back equal those written; every TLC-enumerated combination of flags and file settings (sampled in quick) is run on the real CLI and the observed effective settings are compared with ConfigDoc!Effective; invalid settings must be rejected before anything is written.",
